@@ -14,9 +14,13 @@ import (
 	"unicode/utf16"
 )
 
+// WStream: a stream, or (Storage) a storage. Name is a path: "Sub/Inner/stream" lies in storage "Sub/Inner", which must
+// have been listed before it.
 type WStream struct {
-	Name string
-	Data []byte
+	Name    string
+	Data    []byte
+	Storage bool
+	Clsid   []byte // storages: 16-byte class id
 }
 
 func ceilDiv(a, b int) int { return (a + b - 1) / b }
@@ -34,7 +38,9 @@ func cfbLess(a, b string) bool {
 	return false
 }
 
-// WriteCFB writes a compound file with the given streams directly under the root. gapEvery > 0 leaves one free
+func baseName(p string) string { return p[strings.LastIndex(p, "/")+1:] }
+
+// WriteCFB writes a compound file with the given streams and storages. gapEvery > 0 leaves one free
 // sector after every gapEvery-th regular stream.
 func WriteCFB(path string, sectorSize int, streams []WStream, gapEvery int) error {
 	ss := sectorSize
@@ -155,43 +161,60 @@ func WriteCFB(path string, sectorSize int, streams []WStream, gapEvery int) erro
 			pl[i] = placed{-2, 0}
 		}
 	}
-	// directory tree: balanced BST over the sorted children; the deepest, incomplete level is red
-	order := make([]int, n)
-	for i := range order {
-		order[i] = i
+	// directory trees: per storage, a balanced BST over its sorted children; the deepest, incomplete level is red
+	parent := make([]int, n) // entry index of the containing storage, -1 = root
+	byPath := map[string]int{}
+	for i, st := range streams {
+		parent[i] = -1
+		if k := strings.LastIndex(st.Name, "/"); k >= 0 {
+			pi, ok := byPath[st.Name[:k]]
+			if !ok || !streams[pi].Storage {
+				panic("cfbx writer: " + st.Name + " lies in an undeclared storage")
+			}
+			parent[i] = pi
+		}
+		byPath[st.Name] = i
 	}
-	sort.Slice(order, func(a, b int) bool { return cfbLess(streams[order[a]].Name, streams[order[b]].Name) })
 	left := make([]int32, n)
 	right := make([]int32, n)
+	child := make([]int32, n)
 	color := make([]byte, n)
-	depthFull := 0
-	for (1<<(depthFull+1))-1 <= n {
-		depthFull++
-	} // levels 0..depthFull-1 are complete
-	var build func(lo, hi, depth int) int32
-	build = func(lo, hi, depth int) int32 {
-		if lo >= hi {
-			return -1
+	treeOf := func(p int) int32 {
+		var order []int
+		for i := range streams {
+			if parent[i] == p {
+				order = append(order, i)
+			}
 		}
-		mid := (lo + hi) / 2
-		e := order[mid]
-		color[e] = 1
-		if depth >= depthFull {
-			color[e] = 0
+		m := len(order)
+		sort.Slice(order, func(a, b int) bool { return cfbLess(baseName(streams[order[a]].Name), baseName(streams[order[b]].Name)) })
+		depthFull := 0
+		for (1<<(depthFull+1))-1 <= m {
+			depthFull++
+		} // levels 0..depthFull-1 are complete
+		var build func(lo, hi, depth int) int32
+		build = func(lo, hi, depth int) int32 {
+			if lo >= hi {
+				return -1
+			}
+			mid := (lo + hi) / 2
+			e := order[mid]
+			color[e] = 1
+			if depth >= depthFull {
+				color[e] = 0
+			}
+			left[e] = build(lo, mid, depth+1)
+			right[e] = build(mid+1, hi, depth+1)
+			return int32(e) + 1 // directory index = stream index + 1
 		}
-		left[e] = build(lo, mid, depth+1)
-		right[e] = build(mid+1, hi, depth+1)
-		if left[e] >= 0 {
-			left[e]++ // directory index = stream index + 1
-		}
-		if right[e] >= 0 {
-			right[e]++
-		}
-		return int32(e)
+		return build(0, m, 0)
 	}
-	rootChild := build(0, n, 0)
-	if rootChild >= 0 {
-		rootChild++
+	rootChild := treeOf(-1)
+	for i, st := range streams {
+		child[i] = -1
+		if st.Storage {
+			child[i] = treeOf(i)
+		}
 	}
 	dir := file[sectOff(dirStart) : sectOff(dirStart)+dirSectors*ss]
 	putEntry := func(idx int, name string, typ, col byte, l, r, c int32, start, size int) {
@@ -220,7 +243,12 @@ func WriteCFB(path string, sectorSize int, streams []WStream, gapEvery int) erro
 	}
 	putEntry(0, "Root Entry", 5, 1, -1, -1, rootChild, rootStart, miniCount*miniSize)
 	for i, s := range streams {
-		putEntry(i+1, s.Name, 2, color[i], left[i], right[i], -1, pl[i].start, pl[i].size)
+		if s.Storage {
+			putEntry(i+1, baseName(s.Name), 1, color[i], left[i], right[i], child[i], 0, 0)
+			copy(dir[(i+1)*128+80:(i+1)*128+96], s.Clsid)
+			continue
+		}
+		putEntry(i+1, baseName(s.Name), 2, color[i], left[i], right[i], -1, pl[i].start, pl[i].size)
 	}
 	// tables
 	for i, v := range miniFat {
